@@ -324,7 +324,7 @@ fn check_line(
 
 fn record_body(ch: &Chooser, envs: &Envs, bases: &[usize]) -> Outcome {
     let fi = ch.free("fileformat", FILE_FORMATS.len());
-    let b = *ch.pick_free("base", bases);
+    let b = if bases.len() == 1 { bases[0] } else { *ch.pick_free("base", bases) };
     let env = &envs.by[fi][BASE_SAMPLES[b]];
     let g = gen_::gen_record(ch, env, b);
     let decoded = || {
@@ -440,6 +440,7 @@ fn main() {
         } else {
             let all: Vec<usize> = (0..N_BASES).collect();
             ctx.harness(Config::new("record_rt_k2", 2), |ch| record_body(ch, &envs, &all));
+            ctx.harness(Config::new("record_rt_k3_minimal", 3), |ch| record_body(ch, &envs, &[0]));
         }
 
         // (3) literal lines
